@@ -413,6 +413,23 @@ class CtorChecker:
                                  lambda ot, w, kind, val, n=n, given=given: self._judge_slice(
                                      cls, construct, n, given, ot, w, kind, val), n)
 
+    def check_time_slice_functional(self, cls):
+        """dynetx.time_slice(G, t_from, t_to): the functional form, interpreted through to the method (one interval; every
+        placement of the window, the literal 0 included when the wrapper looks at the truth of a bound)."""
+        from .core import FUNCTION
+        fn = self.repo.get(FUNCTION, "time_slice")
+        construct = self.repo.construct(FUNCTION, "time_slice") + "[G:%s]" % cls
+        params = [a.arg for a in fn.args.args]
+        if params != ["G", "t_from", "t_to"]:
+            raise AnalysisError("%s: unexpected signature %s" % (construct, params))
+        tsyms, tcons = _timeline_symbols(1)
+        for given in (True, False):
+            self.instances += 1
+            syms = tsyms + ["F"] + (["T"] if given else [])
+            env_of = lambda w, given=given: {"G": SelfV(), "t_from": Int("F"), "t_to": Int("T") if given else NONE}
+            self._each_world(cls, fn, env_of, syms, tcons,
+                             lambda ot, w, kind, val, given=given: self._judge_slice(cls, construct, 1, given, ot, w, kind, val), 1)
+
     def check_time_slice_selfloop(self, cls):
         """Same table for a pair that is a self-loop (u == v): its adjacency row contains the node itself."""
         rel = CLASSES[cls]
@@ -682,7 +699,8 @@ class CtorChecker:
             self.instances += 1
 
             def env_of(w):
-                attrs = DictObj({Const("id"): Const("id"), Const("source"): Const("source"), Const("target"): Const("target")})
+                # a caller-chosen id key: the writer must file every node under it (the default key would hide a dropped argument)
+                attrs = DictObj({Const("id"): IDKEY, Const("source"): Const("source"), Const("target"): Const("target")})
                 return {"G": GraphParamV(), "attrs": attrs}
             self._each_world(cls, fn, env_of, tsyms, tcons,
                              lambda ot, w, kind, val, n=n: self._judge_links(cls, construct, n, ot, w, kind, val), n,
@@ -711,21 +729,21 @@ class CtorChecker:
                 # concrete enumeration of the modelled graph's nodes: every node once, attributes + id
                 norm = []
                 for x in nodes.items:
-                    if isinstance(x, DictObj) and set(x.entries) == {Const("__attrs_of__"), Const("id")} and \
-                            x.entries[Const("__attrs_of__")] == x.entries[Const("id")]:
-                        x = NodeEntry(x.entries[Const("id")], Const("id"))
-                    norm.append(x)
-                roles = [x.node.role for x in norm if isinstance(x, NodeEntry) and x.idkey == Const("id")]
+                    norm.append(_as_node_entry(x))
+                roles = [x.node.role for x in norm if isinstance(x, NodeEntry) and x.idkey == IDKEY]
                 ok_nodes = len(roles) == len(nodes.items) and sorted(roles) == sorted({"U"} if loop else {"U", "V"})
             if not ok_nodes:
-                self.add("C11.data", construct, "nodes", "data['nodes'] is %r, expected one entry per node of G with its attributes and id" % (
-                    nodes,), wit)
+                self.add("C11.data", construct, "nodes", "data['nodes'] is %r, expected one entry per node of G with its attributes and its id "
+                         "under the requested key %r" % (nodes, IDKEY.v), wit)
             links = e.get(Const("links"))
             if not isinstance(links, ListObj):
                 self.add("C11.links", construct, "links-not-a-list", "data['links'] is %r" % (links,), wit)
                 return
             w.emitted = [(x, []) for x in links.items]
         self._judge_rows(construct, "C11.links", n, ot, w, kind, val, loop=loop)
+
+
+IDKEY = Const("name")          # attrs['id'] handed to node_link_data by the check
 
 
 class NodeList:
@@ -746,7 +764,7 @@ class LinkWorld(CtorWorld):
                 env2 = dict(env)
                 env2[g.target.id] = n
                 v = _as_node_entry(ip.eval(e.elt, env2))
-                if isinstance(v, NodeEntry) and v.node == n and v.idkey == Const("id"):
+                if isinstance(v, NodeEntry) and v.node == n and v.idkey == IDKEY:
                     return NodeList()
                 return Opaque("node entries %r" % (v,))
         return super().eval_comprehension(ip, e, env)
